@@ -369,21 +369,37 @@ BaseInline == TScope("A", {KO("A", TObject("A",
 \* a reference at every kind of position that can hold one - directly on an object: property, list item, map
 \* value, one-of (string keys) member, one-of (INTEGER keys) member, property of an inline object; and below
 \* containers - in the input of a plugin schema, which stands alone (a foreign namespace cannot be supplied)
+\* (the positions below containers inside the inline object are mutated in the thorough tier only)
+RefsBelow == IF Tier = "quick" THEN {}
+             ELSE {P("c", TList(TOneOf("int", "t", FALSE, {Mem(N(1), RefB)}), None, None, FALSE)),
+                   P("v", TMap(TStr0, TOneOf("string", "t", FALSE, {Mem(S("x"), RefB)}), None, None, FALSE))}
 RefsObj == TObject("A", {P("d", RefB),
                          P("l", TList(RefB, None, None, FALSE)),
                          P("m", TMap(TStr0, RefB, None, None, FALSE)),
                          P("s", TOneOf("string", "t", FALSE, {Mem(S("x"), RefB)})),
                          P("i", TOneOf("int", "t", FALSE, {Mem(N(1), RefB)})),
-                         P("o", TObject("I1", {P("r", RefB),
-                                               P("c", TList(TOneOf("int", "t", FALSE, {Mem(N(1), RefB)}), None, None, FALSE)),
-                                               P("v", TMap(TStr0, TOneOf("string", "t", FALSE, {Mem(S("x"), RefB)}), None, None, FALSE))},
-                                        FALSE, "map"))}, FALSE, "map")
+                         P("o", TObject("I1", {P("r", RefB)} \cup RefsBelow, FALSE, "map"))}, FALSE, "map")
 BaseRefs == TSchema({KV("s1", Step("s1", TScope("A", {KO("A", RefsObj), KO("B", ObjB({}, FALSE))}), {}, {}, {}, None))})
+\* a NESTED scope at every kind of position - property type, list item, map value, one-of (string keys) member,
+\* one-of (integer keys) member, and a scope nested in a nested scope - inside the input of a step, and one in
+\* its output and in the data of a signal: every one of them has a root of its own that the mutations rename to
+\* an absent ID, delete, empty and turn into an integer
+NS(id, props) == TScope(id, {KO(id, TObject(id, props, FALSE, "map"))})
+NestedObj == TObject("A", {P("p", NS("N1", {P("v", TInt0)})),
+                           P("l", TList(NS("N2", {}), None, None, FALSE)),
+                           P("m", TMap(TStr0, NS("N3", {}), None, None, FALSE)),
+                           P("s", TOneOf("string", "t", FALSE, {Mem(S("x"), NS("N4", {}))})),
+                           P("i", TOneOf("int", "t", FALSE, {Mem(N(1), NS("N5", {}))})),
+                           P("d", NS("N6", {P("w", NS("N7", {}))}))}, FALSE, "map")
+NestedSmall(id) == TScope("A", {KO("A", TObject("A", {P("p", NS(id, {}))}, FALSE, "map"))})
+BaseNested == TSchema({KV("s1", Step("s1", TScope("A", {KO("A", NestedObj)}),
+                                     {KV("ok", Out(NestedSmall("N8"), None, FALSE))},
+                                     {KV("h", Sig("h", NestedSmall("N9"), None))}, {}, None))})
 \* bases that are exercised as they are (quick tier: not mutated)
 PlainBases == IF Tier = "quick" THEN Chains \cup {ChainSchema} ELSE {}
-Bases == IF Tier = "quick" THEN {BaseRich, BaseOne, BaseSmall, BaseSchema, BaseUnits, BaseInline, BaseRefs}
+Bases == IF Tier = "quick" THEN {BaseRich, BaseOne, BaseSmall, BaseSchema, BaseUnits, BaseInline, BaseRefs, BaseNested}
          ELSE IF MaxMut = 1 THEN {BaseRich, BaseOne, BaseOneI, BaseEnum, BaseEnumI, BaseInner, BaseSmall, BaseTiny,
-                                  BaseFloat, BaseSchema, BaseSchemaS, BaseUnits, BaseInline, BaseRefs, ChainSchema} \cup Chains
+                                  BaseFloat, BaseSchema, BaseSchemaS, BaseUnits, BaseInline, BaseRefs, BaseNested, ChainSchema} \cup Chains
          ELSE {BaseSmall, BaseTiny, BaseSchemaS}
 
 \* grammar-free trees: atoms, and one or two levels of containers under the keys the entry points look for
